@@ -273,7 +273,9 @@ def parse_start(text, allow_big=False):
     _STARTS[0] += 1
     if _STARTS[0] % 6 == 0:
         numpify(root)
-    return root
+    from ..workloads import copies as _CP
+
+    return _CP.routed(root, "start-tree", every=7)
 
 
 def numpify(root):
@@ -313,6 +315,18 @@ def with_flippers(rules):
     return list(rules) + [("CS", a), ("DF", b)]
 
 
+def copied_rules(rules, rng):
+    """now and then a rule instance is replaced by a deep / unpickled / shallow copy of itself (same class, same options)"""
+    from ..workloads import copies as _CP
+
+    if rng.random() < 0.05:
+        i = rng.randrange(len(rules))
+        label, rule = rules[i]
+        rules = list(rules)
+        rules[i] = (label, _CP.routed(rule, "rule", every=1, shallow=True))
+    return rules
+
+
 def flip(rules, rng):
     from .. import core
     from ..monitors import rules as MR
@@ -327,4 +341,4 @@ def flip(rules, rng):
             core.REC.arm("rules:option-changed-on-a-used-instance")
             l = MR.rule_label(r)
         out.append((l, r))
-    return out
+    return copied_rules(out, rng)
